@@ -548,6 +548,23 @@
                 if a[1] == "u8" { run::<u8>(&a[0], w, h, ssx, ssy, bd, c, c444, &pat, &mut bad); } else { run::<u16>(&a[0], w, h, ssx, ssy, bd, c, c444, &pat, &mut bad); }
                 out(!bad.is_empty(), format!("{} {}x{} ss({},{}): {}", a[0], w, h, ssx, ssy, if bad.is_empty() { "pointwise/layout ok".to_string() } else { bad[..bad.len().min(4)].join("; ") }));
             }
+
+            // oddenc w h ssx ssy: RGB->YUV with dimensions not divisible by the subsampling, run in a child process:
+            // an out-of-bounds get_unchecked_mut aborts with "unsafe precondition(s) violated" in the dev profile (UB), a plain panic is not UB
+            "oddenc" => {
+                if a.len() > 4 && a[4] == "child" {
+                    let (w, h) = (ix(&a[0]), ix(&a[1]));
+                    let rgb = Rgb::new(vec![[0.5, 0.25, 0.75]; w * h], w, h, TC::BT1886, CP::BT709).unwrap();
+                    let _ = Yuv::<u8>::try_from((&rgb, cfg(8, false, MC::BT709, ix(&a[2]) as u8, ix(&a[3]) as u8)));
+                    return;
+                }
+                let exe = std::env::current_exe().unwrap();
+                let o = std::process::Command::new(exe).args(["replay", "oddenc", &a[0], &a[1], &a[2], &a[3], "child"]).output().unwrap();
+                let err = String::from_utf8_lossy(&o.stderr).to_string();
+                let ub = err.contains("unsafe precondition");
+                let line = err.lines().find(|l| l.contains("unsafe precondition") || l.contains("panicked")).unwrap_or("").to_string();
+                out(ub, format!("{}x{} ss({},{}): {}", a[0], a[1], a[2], a[3], if ub { format!("out-of-bounds write: {}", line) } else { format!("no UB observed ({})", line) }));
+            }
             _ => { eprintln!("unknown replay kind {}", kind); std::process::exit(64); }
         }
     }
